@@ -154,6 +154,15 @@ def gen_lines(ctx):
     cases = []
     for cs in structured:
         for opt in OPTS:
+            if ctx.quick:
+                # quick tier: settings that cannot differ from a kept one are left out -- linelimit only enters as
+                # `n <= xlim` (3 is a boundary only for lines of 2..4 characters, otherwise it acts like 0), and with
+                # order=0 the text direction reaches none of the column functions (dir_context/dir_reorder alone,
+                # which the linelimit does not touch); the thorough tier runs all 45 settings on every line
+                if opt[2] == 3 and not 2 <= len(cs) <= 4:
+                    continue
+                if opt[0] == 0 and opt[1] != 0 and opt[2] != 256:
+                    continue
             cases.append((cs, opt))
     # every alphabet character alone, after a tab and at column 7 (tab right after it)
     for c in ALL:
@@ -356,20 +365,245 @@ def sweep(ctx, cl, probe, model):
     res.extra['exhaustive_code_points'] = True
 
 
-def run(ctx):
+# ---------------------------------------------------------------------------------------------
+# the real binary: cursor after N| / counted h l / 0 / $ (vi -v), observed by replacing the character
+# under the cursor with a marker and writing the buffer
+
+MARK = 0x51            # 'Q' -- not in any alphabet of the generators
+
+
+def vi_layout(cl, sp, line, opt, pobs):
+    """Expected layout of `line` (code points, terminator included) computed WITHOUT ren.c: visual order
+    = logical order on the fast path / the order dir_reorder answered (C18's subject) on the reordering
+    path; columns = tiling with the widths the generated tables list.  Returns (vis, start, ctx) or None."""
+    n = len(line)
+    blen = len(rc.enc(line))
+    reorder = n <= opt[2] and (opt[0] == 2 or (opt[0] == 1 and n < blen))
+    vis = list(range(n))
+    if reorder:
+        ord_ = rc.ilist(pobs['ord'])
+        if sorted(ord_) != list(range(n)):
+            return None
+        vis = sorted(range(n), key=lambda i: ord_[i])
+    start, col = [], 0
+    for i in vis:
+        start.append(col)
+        col += cl.cwid(line[i], col)
+    ctx = sp.context(line, opt[1]) if sp is not None and sp.ok else int(pobs['dctx'])
+    return vis, start, ctx
+
+
+def vi_plan(line, lay, rng):
+    """[(keys, expected offset, text)]: the property's sentences about N|, h and l on this line"""
+    vis, start, ctx = lay
+    n = len(line)
+    visidx = {i: k for k, i in enumerate(vis)}
+    total = start[-1] + 1                   # the terminator is one cell wide and displayed last
+
+    def noeol(o):
+        if o >= n:
+            o = max(0, n - 1)
+        return o - 1 if o > 0 and line[o] == NL else o
+
+    def cover(p):
+        k = 0
+        for j in range(n):
+            if start[j] <= p:
+                k = j
+        return vis[k]
+
+    def move(off, key, cnt):
+        d = (1 if key == 'l' else -1) * (1 if ctx >= 0 else -1)      # a right-to-left line is displayed mirrored
+        k = visidx[off]
+        for _ in range(cnt):
+            k2 = k + d
+            if k2 < 0 or k2 >= n or line[vis[k2]] == NL:
+                break
+            k = k2
+        return noeol(vis[k])
+
+    plan = []
+    cols = list(range(1, total + 3)) if total <= 40 else list(range(1, 12)) + sorted(set(rng.range(12, total) for _ in range(16))) + list(range(total - 4, total + 3))
+    for N in cols:
+        plan.append(('%d|' % N, noeol(cover(N - 1)), '%d| lands on the character covering column %d' % (N, N - 1)))
+    offs = list(range(n - 1)) if n <= 14 else sorted(set([0, 1, n - 3, n - 2] + [rng.below(n - 1) for _ in range(8)]))
+    for s0 in offs:
+        at = s0
+        for key in 'lh':
+            for cnt in (1, 2, n + 3):
+                plan.append(('%d|%s%s' % (start[visidx[s0]] + 1, '' if cnt == 1 else str(cnt), key), move(at, key, cnt),
+                             '%d%s from character %d: the character displayed %d to the %s, stopping at the line end'
+                             % (cnt, key, at, cnt, 'right' if key == 'l' else 'left')))
+    for pre, at in (('0', 0), ('$', noeol(n - 1))):
+        for key in 'lh':
+            for cnt in (1, 3):
+                plan.append(('%s%d%s' % (pre, cnt, key), move(at, key, cnt), '%s then %d%s' % (pre, cnt, key)))
+    return plan
+
+
+def vi_observe(vi, line, opt, plan, timeout=40):
+    """one editor run: the line once per planned motion; returns the list of observed offsets or a text"""
+    data = rc.enc(line) * len(plan)
+    keys = b':se order=%d\n:se td=%d\n:se lim=%d\n' % opt
+    for j, (k, _e, _t) in enumerate(plan):
+        keys += b'%dG%sr%c' % (j + 1, k.encode(), MARK)
+    keys += b':w! out\n:q!\n'
+    r = vlib.run_vi(vi, keys, files={'t': data}, args=['t'], readback=['out'], timeout=timeout)
+    if r.timed_out:
+        r = vlib.run_vi(vi, keys, files={'t': data}, args=['t'], readback=['out'], timeout=3 * timeout)     # confirm alone
+        if r.timed_out:
+            return 'the editor hung'
+    if r.crashed():
+        r2 = vlib.run_vi(vi, keys, files={'t': data}, args=['t'], readback=['out'], timeout=3 * timeout)
+        if r2.crashed():
+            return 'the editor crashed (rc=%s): %s' % (r2.rc, r2.err[-300:].decode('latin-1'))
+        r = r2
+    out = r.files.get('out')
+    if out is None:
+        return 'the editor did not write the buffer'
+    rows = out.split(b'\n')[:-1]
+    if len(rows) != len(plan):
+        return 'the written buffer has %d lines instead of %d' % (len(rows), len(plan))
+    obs = []
+    for row in rows:
+        try:
+            u = [ord(ch) for ch in row.decode('utf-8')]
+        except UnicodeDecodeError:
+            obs.append(-2)
+            continue
+        obs.append(u.index(MARK) if u.count(MARK) == 1 and len(u) == len(line) - 1 else -1)
+    return obs
+
+
+def vi_req(line, opt):
+    return 'vi %s %d %d %d' % (vlib.hx(rc.enc(line)), opt[0], opt[1], opt[2])
+
+
+def vi_one(cl, sp, probe, vi, line, opt, seed):
+    """None, or (what, expected, observed, keys) for the first sentence that fails on this line"""
+    o, _m, _q, e = rc.run_ren(probe, None, [req(line, opt)], chunks=1)
+    if e or o[0] is None:
+        return None                      # the probe-level stream reports crashes of ren.c
+    lay = vi_layout(cl, sp, line, opt, rc.parse_obs(o[0]))
+    if lay is None or len(line) < 2:
+        return None
+    plan = vi_plan(line, lay, vlib.Rng(seed))
+    obs = vi_observe(vi, line, opt, plan)
+    if isinstance(obs, str):
+        return (obs, None, None, None, len(plan))
+    for (k, want, text), got in zip(plan, obs):
+        if got != want:
+            return ('vi -v: %s; the cursor is on character %d, expected %d' % (text, got, want), want, got, k, len(plan))
+    return (None, None, None, None, len(plan))
+
+
+def gen_vi(ctx):
+    rng = ctx.rng.fork('vi')
+    A, B, W, T = 0x61, 0x62, 0x4e2d, 9
+    AR = [0x633, 0x644, 0x627, 0x645]
+    lines = []
+    for k in range(0, 10):
+        lines.append([A] * k + [T, B])                       # a tab at every column
+    for k in range(1, 5):
+        lines.append([W] * k + [T, B])                       # ... after wide characters (multi-byte: reordering path with order=1)
+        lines.append([A] * k + [T, T, W, T, B])
+        lines.append([0x627] * k + [T, 0x628, A, T])
+    lines += [[W, T, A, 0x627, 0x628, T, B], [0x627, T, W, 0x628, A], [A, T, W, T, 0x301, B], [T, T, 0xe9], [0xe9, T, T, A],
+              [A, W, B], [W, W], [A, 0x301, B], [0x65, 0x301, 0x200b, 0x78], [0x644, 0x64e, 0x627], [A, 0x200c, B], [A, 0x200d, 0x651, B],
+              [0x01, A, 0x7f, 0x85], [A, 0x20] + AR + [0x20, B], AR + [0x20, A, B, 0x20, 0x645], [A, B, 0x20] + AR + [0x20, 0x30, 0x39, 0x20] + AR,
+              AR + [0x20] + AR, [A, 0x24] + AR[:2] + [0x24, B], [0x5c, 0x2a, 0x5b, 0x633, A, 0x5d, 0x20, 0x645, 0x644],
+              [0x5c, 0x66, 0x7b, 0x628, T, W, 0x7d], [A, B, 0x627], [0x627, A, B], [0x20, 0x627, 0x628], [A], [0x627], [T], [W],
+              [A] * 30 + AR + [T, W] * 6 + AR + [B] * 30]
+    cases = []
+    std = [(1, 0, 256), (2, -1, 256), (2, 1, 256), (1, -2, 256), (0, 0, 256), (1, 2, 256), (2, 0, 3), (1, -1, 0), (2, -2, 256), (0, -1, 256)]
+    for j, ln in enumerate(lines):
+        k = 4 if ctx.quick else len(std)
+        for opt in [std[(j + i) % len(std)] for i in range(k)] if ctx.quick else std:
+            cases.append((ln, opt))
+        if ctx.quick and any(c == T for c in ln):
+            for opt in ((1, 0, 256), (2, 1, 256)):
+                if (ln, opt) not in cases:
+                    cases.append((ln, opt))
+    for _ in range(120 if ctx.quick else 1500):
+        n = rng.choice([2, 3, 4, 6, 9, 13])
+        kind = rng.below(4)
+        cs = []
+        for _j in range(n):
+            if kind == 0:
+                pool = [A, B, T, T, W, 0x20]
+            elif kind == 1:
+                pool = RTL[:5] + [0x20, A, 0x30, T, W] + PLACE[:3]
+            else:
+                pool = rng.choice([ASCII, WIDE, ZERO, PLACE, RTL, RTL, CTRL, [T], [T], ASCII])
+            cs.append(rng.choice(pool))
+        cases.append((cs, rng.choice(OPTS)))
+    return [(cs + [NL], opt) for cs, opt in cases]
+
+
+def vi_stream(ctx, cl, probe, vi, cases):
     res = ctx.res
+    try:
+        from props import c18
+        sp = c18.Spec(cl.t)
+    except Exception:
+        sp = None
+    import hashlib
+    seeds = [int(hashlib.sha256(vi_req(ln, opt).encode()).hexdigest()[:12], 16) for ln, opt in cases]     # replayable from the request alone
+    outs = vlib.pmap(lambda a: vi_one(cl, sp, probe, vi, a[0][0], a[0][1], a[1]), list(zip(cases, seeds)))
+    nviol = 0
+    for (line, opt), seed, r in zip(cases, seeds, outs):
+        if r is None:
+            continue
+        res.evaluations += r[4]
+        res.count('vi -v motions (N| h l 0 $ on the real binary)', r[4])
+        res.count('vi -v lines')
+        res.nontriv(vi_req(line, opt))
+        if r[0] is None:
+            continue
+        nviol += 1
+        if nviol > 3:
+            continue
+
+        def fails(sub, opt=opt, seed=seed):
+            if not sub or sub[-1] != NL or NL in sub[:-1]:
+                return False
+            r2 = vi_one(cl, sp, probe, vi, sub, opt, seed)
+            return r2 is not None and r2[0] is not None
+        small = vlib.shrink(line, fails, max_steps=60)
+        r2 = vi_one(cl, sp, probe, vi, small, opt, seed)
+        if r2 is None or r2[0] is None:
+            small, r2 = line, r
+        res.violation({'what': r2[0], 'input': [vi_req(small, opt)], 'line_code_points': ['U+%04X' % c for c in small],
+                       'options': {'order': opt[0], 'td': opt[1], 'lim': opt[2]}, 'keys': r2[3], 'expected': r2[1], 'observed': r2[2],
+                       })
+    for (line, opt) in cases[:400:97]:
+        res.sample({'request': vi_req(line, opt)})
+
+
+def run(ctx):
+    import time
+    res = ctx.res
+    t0 = time.time()
+    tm = res.extra.setdefault('wall_seconds_by_phase', {})
+
+    def lap(name):
+        nonlocal t0
+        tm[name] = round(time.time() - t0, 1)
+        t0 = time.time()
     cl = rc.Classes(rc.tables())
-    probe, probe_asan, model = rc.build(model=lambda: ctx.model('ren'))
+    probe, probe_asan, model, vi = rc.build(model=lambda: ctx.model('ren'), vi=True)
     res.rule = ('one evaluation = one line x option setting through ren_position, ren_pos, ren_off, ren_cursor, ren_next (both ways), ren_noeol, '
                 'ren_wid, pos_next, pos_prev at every offset and every column (both ends for lines wider than 80), or one code point of the '
-                'exhaustive width-class sweep; non-trivial = the line contains a tab, a wide, zero-width, placeholder, control or right-to-left '
+                'exhaustive width-class sweep, or one cursor motion (N|, counted h / l, after 0 / $) of vi -v on a line; non-trivial = the line contains a tab, a wide, zero-width, placeholder, control or right-to-left '
                 'character; distinct = distinct (line, options)')
     if ctx.replay:
         rp = json.load(open(ctx.replay))
-        cases, mal = [], []
+        cases, mal, vcases = [], [], []
         for r in rp.get('input', []):
             w = r.split()
-            if w[0] == 'ren':
+            if w[0] == 'vi':
+                vcases.append(([ord(ch) for ch in vlib.unhx(w[1]).decode('utf-8')], (int(w[2]), int(w[3]), int(w[4]))))
+            elif w[0] == 'ren':
                 b = vlib.unhx(w[1])
                 opt = (int(w[2]), int(w[3]), int(w[4]))
                 try:
@@ -381,11 +615,13 @@ def run(ctx):
                     res.extra.setdefault('replayed_sweep', []).extend(out1[:5])
     else:
         # corpus first
-        cases, mal = [], []
+        cases, mal, corpus_vi = [], [], []
         import glob, os
         for f in sorted(glob.glob(os.path.join(vlib.VERIF, 'corpus', 'C17-*.json'))):
             for r in json.load(open(f)).get('input', []):
                 w = r.split()
+                if w and w[0] == 'vi':
+                    corpus_vi.append(([ord(ch) for ch in vlib.unhx(w[1]).decode('utf-8')], (int(w[2]), int(w[3]), int(w[4]))))
                 if w and w[0] == 'ren':
                     try:
                         cases.append(([ord(ch) for ch in vlib.unhx(w[1]).decode('utf-8')], (int(w[2]), int(w[3]), int(w[4]))))
@@ -393,8 +629,11 @@ def run(ctx):
                         mal.append((vlib.unhx(w[1]), (int(w[2]), int(w[3]), int(w[4]))))
         cases += gen_lines(ctx)
         mal += gen_malformed(ctx)
+        vcases = corpus_vi + gen_vi(ctx)
+    lap('build probes, model, vi')
     reqs = [req(cs, opt) for cs, opt in cases] + [req(b, opt) for b, opt in mal]
     obs, mo, mreq, errs = rc.run_ren(probe, model, reqs)
+    lap('ren requests: probe and model')
     for e, part in errs or []:
         if e.startswith('probe'):
             res.violation({'what': 'the implementation crashed or hung: ' + e[:300], 'input': part[:40]})
@@ -459,5 +698,9 @@ def run(ctx):
     res.evaluations += len(mal)
     for (cs, opt), r, a in list(zip(cases, reqs, obs))[:2000:331]:
         res.sample({'request': r, 'answer': (a or '')[:300]})
+    lap('sanitized probe, oracle')
+    vi_stream(ctx, cl, probe, vi, vcases)
+    lap('vi -v stream')
     if not ctx.replay:
         sweep(ctx, cl, probe, model)
+        lap('width-class sweep')
